@@ -21,7 +21,7 @@ for sid in sorted(os.listdir(os.path.join(ROOT, "seeded"))):
     rc, out = sh("git -C /repo apply %s" % os.path.join(d, "patch.diff"))
     assert rc == 0, out
     try:
-        rc, out = sh("./check %s" % prop, ROOT)
+        rc, out = sh("VERIF_NO_EVIDENCE=1 ./check %s" % prop, ROOT)
     finally:
         sh("git -C /repo checkout -- .")
     lines = [l for l in out.splitlines() if l.startswith(("VIOLATION", "UNDECIDED", "OK", "KNOWN", "  failed"))]
